@@ -52,10 +52,10 @@ def replay_ipm(tool, a, b, fa, fb, msgs):
     return False, 'ok', None
 
 
-def replay_param(tool, a, b, fa, fb, lens):
+def replay_param(tool, a, b, fa, fb, lens, texts=None):
     from cardutil import mciipm
     from cardutil.cli import mci_ipm_param_encode, paramconv
-    texts = [''.join(chr(48 + (j * 5 + i) % 43) for j in range(n)) for i, n in enumerate(lens)]
+    texts = texts or [''.join(chr(48 + (j * 5 + i) % 43) for j in range(n)) for i, n in enumerate(lens)]
     f = io.BytesIO()
     w = mciipm.VbsWriter(f, blocked=fa)
     for t in texts:
